@@ -5,6 +5,7 @@ From Coq Require Import List ZArith QArith Qround Bool.
 From PV Require Import lib.Sx lib.Str lib.Result lib.Dec.
 From PV Require Import model.TimeRead model.TimeTree spec.SpecTime spec.SpecTimeTree proofs.TimeReadFacts proofs.TimeDocFacts proofs.TimeTreeFacts.
 From PV Require Import model.XmlRead spec.SpecXmlDocT proofs.XmlReadFacts.
+From PV Require Import model.SamiText spec.SpecSamiText proofs.SamiTextFacts.
 Import ListNotations.
 Open Scope Z_scope.
 
@@ -279,4 +280,44 @@ Example C01_ex_dfxp_text :
   xdoc_ok d = true /\
   render_doc d = lit "<?xml version='1.0'?> <tt xml:lang=""en""><body> <div  xml:lang = 'fr' ><p role=""a&lt;b&amp;'c""  end = '00:00:02.5' begin=""1ms"">h<br />&amp;&#160;</p><p>&#160; </p> </div></body></tt>" /\
   dfxp_read_string (lit "und") (render_doc d) = Ok [(lit "fr", [(1000, 2500000)])].
+Proof. vm_compute. repeat split; reflexivity. Qed.
+
+(* ---- round 4: SAMI documents AS TEXT (from <BODY> on) ----------------------------------------------------------------
+   sdoc (spec/SpecSamiText.v) = syncs and paragraphs + every lexical choice: case of every tag name, attributes with white
+   space before the name and around '=', values double-quoted / single-quoted / unquoted, other attributes around start= /
+   class= / lang=, every text character literal / entity / decimal reference / &nbsp;, <br> tags, white space between tags.
+   sami_read_string (model/SamiText.v) = tokens -> the sync / paragraph machine (what SAMIParser + the second parse hand to
+   the walker) -> sami_read_tree; the stylesheet is given as its class -> lang table. *)
+
+(* the text of every well-formed abstract document tokenises to its tags and text runs *)
+Theorem C01_sami_text_tokens : forall default styles d, sdoc_ok default styles d = true ->
+  stoks (S (length (render_sdoc d))) (render_sdoc d) = Some (toks_doc d).
+Proof. exact stoks_doc. Qed.
+Print Assumptions C01_sami_text_tokens.
+
+(* STRING LEVEL: reading the rendered text yields, for every language in order of first appearance, exactly the denoted
+   captions: a cue lasts until the next sync of ITS language (a blank &nbsp; paragraph ends it), the last one four seconds *)
+Theorem C01_sami_string_exact : forall default styles d,
+  sdoc_ok default styles d = true -> sami_tree_dom (sdoc_langs d) (sdoc_body d) = true ->
+  sami_read_string default styles (render_sdoc d) = sdoc_expected d.
+Proof. exact sami_string_exact. Qed.
+Print Assumptions C01_sami_string_exact.
+
+Example C01_ex_sami_text :
+  let styles := [(lit "encc", lit "en-US"); (lit "frcc", lit "fr")] in
+  let a p n q v := mkSa p n [] [] q v in
+  let par attrs lang txt := mkSpar (mkSt (lit "P") attrs []) lang ([], txt) (lit "p", []) [] in
+  let d := mkSdoc (mkSt (lit "BODY") [] []) [10]
+             [mkSsync (mkSt (lit "SYNC") [a [32] (lit "start") 0 (lit "1000")] []) 0 1000 []
+                [par [a [32] (lit "class") 0 (lit "ENCC")] (lit "en-US") [ScLit 104; ScLit 38];
+                 par [a [32] (lit "class") 34 (lit "hl"); a [32; 32] (lit "lang") 39 (lit "fr")] (lit "fr") [ScLit 120]] (lit "SYNC", []) [10];
+              mkSsync (mkSt (lit "Sync") [a [32] (lit "id") 34 (lit "s2"); a [32] (lit "start") 34 (lit "02500")] [32]) 1 2500 []
+                [par [a [32] (lit "class") 0 (lit "encc")] (lit "en-US") [ScNbsp]] (lit "sync", [32]) []]
+             [((lit "BODY", []), [])] in
+  sdoc_ok (lit "und") styles d = true /\ sami_tree_dom (sdoc_langs d) (sdoc_body d) = true /\
+  render_sdoc d = lit "<BODY>
+<SYNC start=1000><P class=ENCC>h&amp;</p><P class=""hl""  lang='fr'>x</p></SYNC>
+<Sync id=""s2"" start=""02500"" ><P class=encc>&nbsp;</p></sync ></BODY>" /\
+  sami_read_string (lit "und") styles (render_sdoc d)
+  = Ok [(lit "en-US", [(1000000, 2500000)]); (lit "fr", [(1000000, 5000000)])].
 Proof. vm_compute. repeat split; reflexivity. Qed.
